@@ -528,6 +528,7 @@ func init() {
 		if err != nil {
 			return "", err
 		}
+		var warm rjson.ValueReader
 		famOfType := map[string]string{"1": "null", "2": "string", "3": "number", "4": "bool", "5": "bool", "6": "object", "8": "array"}
 		for i, d := range pool {
 			h := hx(d)
@@ -549,6 +550,22 @@ func init() {
 					if rd.fam != allowed {
 						c.Suite.Violation(rd.op+" "+strings.Join(args, " "), impl, "error (token classified as "+allowed+")", "exclusive", "a typed reader succeeded on a token of another type")
 					}
+				}
+			}
+			// the container readers once more on a reader that has just read a non-empty array and a non-empty object: what a
+			// reader accepts must not depend on what it read before
+			{
+				c.Suite.Evaluations++
+				c.Suite.Classes["exclusive:warm"]++
+				warm.ReadArray([]byte("[1,2,3]"))
+				_, _, aerr := warm.ReadArray(d)
+				warm.ReadObject([]byte(`{"a":1,"b":2}`))
+				_, _, oerr := warm.ReadObject(d)
+				if aerr == nil && allowed != "array" {
+					c.Suite.Violation("ReadArray "+h+" on a used reader", "ok", "error (token classified as "+allowed+")", "exclusive", "a typed reader succeeded on a token of another type")
+				}
+				if oerr == nil && allowed != "object" {
+					c.Suite.Violation("ReadObject "+h+" on a used reader", "ok", "error (token classified as "+allowed+")", "exclusive", "a typed reader succeeded on a token of another type")
 				}
 			}
 			if len(succeeded) > 1 {
